@@ -225,6 +225,64 @@ def f1(repo: Repo) -> RuleResult:
                 fd = Finding("F1", mod.rel, c.node.lineno, c.name, what, f"on some path this block pushes unbalanced brackets ({what})", witness="the generated file does not parse", tag=f"{c.name}:balance")
                 fd.part = part
                 res.bad(fd)
+    # deferred endings close in the reverse order of the openings (include guard around extern "C" ...)
+    try:
+        bc = m.func("renderer/block.py", "BlockComposition.render")
+        fnb = bc.node
+        local: Dict[str, ast.AST] = {}
+        for n in ast.walk(fnb):
+            if isinstance(n, (ast.Assign, ast.AnnAssign)) and n.value is not None:
+                for t_ in (n.targets if isinstance(n, ast.Assign) else [n.target]):
+                    if isinstance(t_, ast.Name):
+                        local.setdefault(t_.id, n.value)
+
+        def iter_of(callee: str) -> Optional[ast.AST]:
+            for n in ast.walk(fnb):
+                if isinstance(n, ast.For) and any(isinstance(c_, ast.Call) and isinstance(c_.func, ast.Attribute) and c_.func.attr == callee for b_ in n.body for c_ in ast.walk(b_)):
+                    return n.iter
+                if isinstance(n, (ast.ListComp, ast.GeneratorExp)) and any(isinstance(c_, ast.Call) and isinstance(c_.func, ast.Attribute) and c_.func.attr == callee for c_ in ast.walk(n.elt)):
+                    return n.generators[0].iter
+            return None
+
+        def source(e: Optional[ast.AST], depth: int = 0) -> Tuple[Optional[str], int, bool]:
+            """(source sequence, number of reversals, known)"""
+            if e is None or depth > 6:
+                return None, 0, False
+            if isinstance(e, ast.Name) and e.id in local:
+                # a list the render loop fills in visiting order is in that order
+                v = local[e.id]
+                if isinstance(v, ast.List) and not v.elts:
+                    apps = [n for n in ast.walk(fnb) if isinstance(n, ast.Call) and isinstance(n.func, ast.Attribute) and n.func.attr == "append" and isinstance(n.func.value, ast.Name) and n.func.value.id == e.id]
+                    lp = [n for n in ast.walk(fnb) if isinstance(n, ast.For) and any(a_ in list(ast.walk(n)) for a_ in apps)]
+                    if apps and len(lp) == 1:
+                        return source(lp[0].iter, depth + 1)
+                    return None, 0, False
+                return source(v, depth + 1)
+            if isinstance(e, ast.Call) and isinstance(e.func, ast.Name) and e.func.id == "reversed" and len(e.args) == 1:
+                s_, r_, k_ = source(e.args[0], depth + 1)
+                return s_, r_ + 1, k_
+            if isinstance(e, ast.Subscript) and isinstance(e.slice, ast.Slice) and e.slice.lower is None and e.slice.upper is None and e.slice.step is not None and src_of(e.slice.step) == "-1":
+                s_, r_, k_ = source(e.value, depth + 1)
+                return s_, r_ + 1, k_
+            if isinstance(e, ast.Call) and isinstance(e.func, ast.Name) and e.func.id in ("list", "tuple", "iter") and len(e.args) == 1:
+                return source(e.args[0], depth + 1)
+            if isinstance(e, (ast.ListComp, ast.GeneratorExp)) and len(e.generators) == 1 and isinstance(e.elt, ast.Name) and isinstance(e.generators[0].target, ast.Name) and e.elt.id == e.generators[0].target.id:
+                return source(e.generators[0].iter, depth + 1)  # an order-preserving filter
+            if isinstance(e, ast.Call) and isinstance(e.func, ast.Name) and e.func.id == "filter" and len(e.args) == 2:
+                return source(e.args[1], depth + 1)
+            return src_of(e), 0, True
+
+        s1 = source(iter_of("_render_from_block"))
+        s2 = source(iter_of("_defer_from_block"))
+        res.inst(part="defer-order", render_over=s1[0], defer_over=s2[0], reversals=(s1[1], s2[1]))
+        if not (s1[2] and s2[2]) or s1[0] != s2[0]:
+            res.unsure("F1: BlockComposition.render: the render loop and the defer loop are not recognised as running over the same blocks")
+        elif (s1[1] + s2[1]) % 2 != 1:
+            fd = Finding("F1", bc.rel, fnb.lineno, bc.qual, f"render over {s1[0]} (x{s1[1]} reversed), defer over {s2[0]} (x{s2[1]} reversed)", "deferred block endings are not emitted in the reverse order of the blocks' openings: nested wrappers (include guard around extern \"C\") close in the wrong order", witness="a C header included twice from C++: the closing `}` of extern \"C\" lands outside the include guard", tag="BlockComposition.render:defer-order")
+            fd.part = "common"
+            res.bad(fd)
+    except Inconclusive as e:
+        res.unsure(f"F1: defer order: {e}")
     return res
 
 
@@ -688,4 +746,81 @@ def f9(repo: Repo) -> RuleResult:
         if missing:
             res.bad(Finding("F9", m.mod("impls/py/renderer.py").rel, c.node.lineno, "BlockGeneralImports.render", f"path under {p_.guard_text()}: imports {sorted(imported & universe)}", f"the generated module uses {missing} (e.g. {used[missing[0]]}) but the import block does not import {'it' if len(missing) == 1 else 'them'} on the path under {p_.guard_text() or ['<always>']}: templates elsewhere emit these names under their own conditions", witness="a file that declares no enum itself but uses an imported enum as a field type: NameError: name 'Union' is not defined on import", tag=f"py-imports:{','.join(missing)}"))
             break
+    return res
+
+
+# --------------------------------------------------------------------------
+# F10 generated Python helper functions: defined for every definition they are called for
+# --------------------------------------------------------------------------
+
+
+@rule("F10", "generated Python: a per-definition helper function is defined for every kind of definition whose uses call it")
+def f10(repo: Repo) -> RuleResult:
+    from .emit import block_flow, class_decider, class_emissions
+    from .flows import compiler_flow
+    from .normal import V as _V
+    from .normal import show as _show
+    from .pyflow import single_atom as _sa
+    from .rules_a import type_domains
+    from .rules_d3 import _atoms_deep
+
+    res = RuleResult("F10", floor=4)
+    m = get_model(repo)
+    pm = m.mod("impls/py/renderer.py")
+    em = class_emissions(repo, "impls/py/renderer.py", named="plain")
+    # helper-naming formatter methods and the block classes whose emission defines `def <that name>(`
+    definers: Dict[str, List[str]] = {}
+    for cn, lines in em.items():
+        for l_ in lines:
+            mm = re.match(r"\s*def self\.formatter\.(\w+)\(self\.d\)\(", l_)
+            if mm:
+                definers.setdefault(mm.group(1), []).append(cn)
+    res.inst(part="py", definers={k: v for k, v in definers.items()})
+    doms = type_domains(repo)
+    CASES = (("formart_default_factory_alias", "BlockAlias", "Alias", "AliasTarget"),)
+    for namer, owner_block, owner_kind, dom in CASES:
+        dcls = definers.get(namer)
+        if not dcls:
+            res.unsure(f"F10: no block defines `def {namer}(self.d)(`")
+            continue
+        ob = pm.classes.get(owner_block)
+        bl = m.lookup(ob, "blocks") if ob is not None else None
+        if bl is None:
+            res.unsure(f"F10: {owner_block}.blocks vanished")
+            continue
+        pf = m.cls("PyFormatter", "impls/py/formatter.py")
+        users = [n_ for k_ in m.mro(pf) for n_, f_ in k_.methods.items() if n_ != namer and any(isinstance(c_, ast.Call) and isinstance(c_.func, ast.Attribute) and c_.func.attr == namer for c_ in ast.walk(f_.node))]
+        for K in doms[dom]:
+            try:
+                # (1) is the defining block part of the alias's blocks when the target is a K?
+                flow = block_flow(repo, owner_block, "impls/py/renderer.py", "PyFormatter", "impls/py/formatter.py", {"self.d.type": K.name})
+                defined = None
+                for p_ in flow.run(bl.node, {"self": _V("self")}):
+                    if p_.done != "return" or p_.ret is None:
+                        continue
+                    names = {a_[1] for a_ in _atoms_deep(p_.ret) if a_[0] in ("call", "new")}
+                    names |= {(_sa(x) or ("", ""))[1] for e in p_.effects if e.kind == "call" and e.name in ("append", "extend", "insert") for x in e.args if hasattr(x, "terms")}
+                    has = any(d_ in names for d_ in dcls)
+                    defined = has if defined is None else (defined and has)
+                # (2) do the uses call the helper for an alias whose target is a K?
+                used_by = []
+                for un in sorted(set(users)):
+                    uf = m.lookup(pf, un)
+                    prm = [a_.arg for a_ in uf.node.args.args]
+                    if len(prm) < 2:
+                        continue
+                    fl2 = compiler_flow(repo, "PyFormatter", "impls/py/formatter.py", inline=lambda n_, f_: False, decide=class_decider(repo, {f"{prm[1]}.type": K.name}))
+                    for p_ in fl2.run(uf.node, {prm[0]: _V("self"), prm[1]: _V(prm[1])}):
+                        if p_.done == "return" and p_.ret is not None and f"{namer}(" in _show(p_.ret):
+                            used_by.append(un)
+                            break
+                res.inst(part="py", helper=namer, target=K.name, defined=defined, used_by=used_by)
+                if used_by and defined is False:
+                    fd = Finding("F10", pm.rel, bl.node.lineno, f"{owner_block}.blocks", f"{K.name}: used by {used_by}", f"for an alias of a {K.name} the generated module calls `{namer}(...)` (from {used_by}) but the block that defines that function ({dcls}) is not emitted: NameError when the message is instantiated", witness="type Stamp = uint32; message M { Stamp[3] at = 1 }", tag=f"{namer}:{K.name}")
+                    fd.part = "py"
+                    res.bad(fd)
+                elif defined is None:
+                    res.unsure(f"F10: {owner_block}.blocks: no return path for target {K.name}")
+            except Inconclusive as e:
+                res.unsure(f"F10: {namer} / {K.name}: {e}")
     return res
